@@ -167,7 +167,10 @@ def report(prop, tier, seed, t0, contracts, results, lemma_recs, validations, sp
             json.dump(rp, open(path, "w"), indent=1)
             nat = RP.run_native(path)
             rp["native_outcome"] = nat
-            verdict, detail = RP.evaluate_post(I, c, case, call, nat)
+            if hasattr(c, "judge_native"):
+                verdict, detail = c.judge_native(I, case, call, nat)
+            else:
+                verdict, detail = RP.evaluate_post(I, c, case, call, nat)
             rp["replay_verdict"] = verdict
             rp["replay_detail"] = detail
             return verdict == "violates"
@@ -331,7 +334,10 @@ def do_replay(prop, path):
         print(f"VIOLATION property={prop} replay={path} no-failing-input-found")
         return 1
     nat = RP.run_native(path)
-    verdict, detail = RP.evaluate_post(I, c, case, rp["call"], nat)
+    if hasattr(c, "judge_native"):
+        verdict, detail = c.judge_native(I, case, rp["call"], nat)
+    else:
+        verdict, detail = RP.evaluate_post(I, c, case, rp["call"], nat)
     print("call:", json.dumps(rp["call"]))
     print("native outcome:", json.dumps(nat)[:1500])
     print("verdict:", verdict, "-", detail)
